@@ -8,9 +8,9 @@ import (
 	"fmt"
 	"io"
 	"net/http"
+	"os"
 	"net/http/httptest"
 	"net/url"
-	"os"
 	"sort"
 	"strings"
 	"testing/iotest"
@@ -206,6 +206,41 @@ func c16ManyLogs(run *ev.Run, u *uni.U, gen *wh.CPGen, store string, setup func(
 	}
 }
 
+// c16ReadSoak: reads that add up - 300 rounds of {a log that holds nothing, an
+// unknown ID, a log that holds a checkpoint, the log list} on one server; the
+// answers of the last round are the answers of the first.
+func c16ReadSoak(run *ev.Run, u *uni.U, gen *wh.CPGen, store string, setup func(*wh.Env)) {
+	la := wh.LogCfg{Origin: "verif.example/soak/held", Key: u.K1}
+	lb := wh.LogCfg{Origin: "verif.example/soak/empty", Key: u.K2}
+	e := wh.NewEnv(u, wh.Config{Store: store, Logs: []wh.LogCfg{la, lb}})
+	defer e.Close()
+	setup(e)
+	router := e.X["router"].(http.Handler)
+	cl := e.X["client:"].(whttp.Witness)
+	cp, meta := gen.Get(la, u.Main, 3, "plain")
+	if out := e.Do(wh.Req{LogID: la.ID(), CP: cp, Meta: meta}); out.Class != wh.OK {
+		return // first use refused: C08/C09's subject
+	}
+	want := string(e.Stored(la.ID()))
+	unknown := uni.ID("verif.example/soak/never-configured")
+	for i := 1; i <= 300; i++ {
+		rep := map[string]any{"kind": "read-soak", "store": store, "round": i}
+		c1, _, _ := c16Get(router, "/witness/v0/logs/"+lb.ID()+"/checkpoint")
+		c2, _, _ := c16Get(router, "/witness/v0/logs/"+unknown+"/checkpoint")
+		c3, b3, _ := c16Get(router, "/witness/v0/logs/"+la.ID()+"/checkpoint")
+		c4, b4, _ := c16Get(router, "/witness/v0/logs")
+		got, err := cl.GetLatestCheckpoint(context.Background(), la.ID())
+		_, errE := cl.GetLatestCheckpoint(context.Background(), lb.ID())
+		run.Add("read_soak_requests", 6)
+		var list []string
+		_ = json.Unmarshal([]byte(b4), &list)
+		if c1 != 404 || c2 != 404 || c3 != 200 || b3 != want || c4 != 200 || len(list) != 1 || list[0] != la.ID() || err != nil || string(got) != want || !os.IsNotExist(errE) {
+			run.Report(fmt.Sprintf("reads-change-after-many-reads empty=%d unknown=%d held=%d list=%d", c1, c2, c3, c4), fmt.Sprintf("%s store: in round %d of {empty log, unknown ID, held log, log list} the answers were %d / %d / %d (bytes exact: %v) / %d (%d entries), client: err=%v, empty-log err=%v; want 404 / 404 / 200 exact / 200 with one entry, nil, does-not-exist", store, i, c1, c2, c3, b3 == want, c4, len(list), err, errE), rep)
+			return
+		}
+	}
+}
+
 func uniq(l []string) map[string]bool {
 	m := map[string]bool{}
 	for _, x := range l {
@@ -339,6 +374,7 @@ func c16(tier string) int {
 		e.Do(wh.Req{LogID: la.ID(), CP: cpA, Meta: mA})
 		c16OddIDs(run, e, logs)
 		c16ManyLogs(run, u, gen, store, setup)
+		c16ReadSoak(run, u, gen, store, setup)
 		e.Close()
 	}
 	// Fault leg: reads under storage faults - never wrong bytes, never 'not
